@@ -135,6 +135,16 @@ def generate(rng, k, tier="quick"):
             ops.append({"op": "DEEPCOPY", "of": "returned" if (have_ret and rng.random() < 0.3) else "receiver"})
             copies.append(t)
         op, v = gen_move(rng, t, last, spec)
+        if typ in ("Line", "Segment", "HalfLine") and rng.random() < 0.07 and not any(abs(c) > 6 for c in t):
+            # the move vector IS one of the subject's own Vector objects, obtained through its
+            # public accessors (line.parametric()): by value an ordinary lattice vector, by
+            # identity aliased with state that move itself updates (S61)
+            which = rng.choice(["sv", "dv"])
+            a0, d0 = X.carrier(spec)
+            v = X.add(a0, t) if which == "sv" else d0
+            if typ == "HalfLine" and spec["form"] == "PP" and which == "dv":
+                v = d0
+            op = {"op": "MOVE", "alias": which, "v": X.ser(v), "ints": False, "kind": "alias"}
         if small and rng.random() < 0.7:
             v = X.mul(F(rng.choice([-1, 1, -1, 1, 2, -2])), rng.choice(X.AXES))
             op = {"op": "MOVE", "v": X.ser(v), "ints": rng.random() < 0.5, "kind": "unit_axis"}
@@ -448,6 +458,18 @@ def execute(history, opts=None):
         if kind == "MOVE":
             v = X.vec(op["v"])
             mv = V(v, op.get("ints", False))
+            if op.get("alias"):
+                # fetch the subject's own Vector object; its value at this instant is the move
+                got = call(lambda o: (o if type(o).__name__ == "Line" else o.line).parametric()[0 if op["alias"] == "sv" else 1], Xo)
+                if isinstance(got, Raised) or type(got).__name__ != "Vector":
+                    ctx.event(step, "MOVE", "alias-unavailable")
+                    continue
+                vv = tuple(F(c) for c in got)
+                if any(c.denominator > 4 or abs(c) > 32 for c in vv):
+                    ctx.event(step, "MOVE", "alias-offlattice")
+                    continue
+                v, mv = vv, got
+                ctx.count("alias_moves")
             if R is not None:
                 stale.append([R, "superseded_return"])
                 del stale[:-3]
